@@ -68,7 +68,9 @@ type RunResult struct {
 	Recorded   Plan
 	Stats      Stats
 	Harness    error
-	post       []func() ([]Violation, bool)
+	// Unsupported: the SQL interpreter met a statement outside its grammar; the run decides nothing
+	Unsupported string
+	post        []func() ([]Violation, bool)
 }
 
 type runner struct {
@@ -401,6 +403,7 @@ func RunScenario(t *testing.T, sc *Scenario, plan *Plan, ex *ExploreCfg) (res *R
 func runInBubble(t *testing.T, sc *Scenario, plan *Plan, ex *ExploreCfg, res *RunResult) {
 	w := NewWorld()
 	w.lenientReads = sc.Params["lenient_reads"] == "1"
+	w.realSQL = sc.Knobs.RealSQL
 	seed := sc.Seed
 	if ex != nil {
 		seed = ex.Seed
@@ -506,6 +509,17 @@ func runInBubble(t *testing.T, sc *Scenario, plan *Plan, ex *ExploreCfg, res *Ru
 	res.Results = r.results
 	res.Recorded = w.recorded
 	res.Harness = w.harness
+	w.mu.Lock()
+	res.Unsupported = w.sqlUnsupported
+	w.mu.Unlock()
+	w.db.mu.Lock()
+	if res.Unsupported == "" {
+		res.Unsupported = w.sqlUnsupportedTaint
+	}
+	w.db.mu.Unlock()
+	if res.Unsupported != "" {
+		res.Violations, res.post = nil, nil
+	}
 	h := sha256.New()
 	for _, s := range w.trace {
 		h.Write([]byte(s))
